@@ -1292,8 +1292,9 @@ func (pc *PartitionContext) UpdateAllocation(alloc *objects.Allocation) (request
 				alloc.GetApplicationID(), err)
 		}
 
-		// update node if allocation was previously allocated
-		if existingNode != nil {
+		// update node if allocation was previously allocated and the node holds it: the replacement for a placeholder
+		// on the same node is only added to the node when the swap is confirmed
+		if existingNode != nil && existingNode.GetAllocation(allocationKey) != nil {
 			existingNode.UpdateAllocatedResource(delta)
 		}
 	}
@@ -1528,14 +1529,19 @@ func (pc *PartitionContext) removeAllocation(release *si.AllocationRelease) ([]*
 			// placeholder is larger than the real allocation. The node and queue need adjusting.
 			// The reverse case is handled during allocation.
 			if delta.HasNegativeValue() {
-				// This looks incorrect but the delta is negative and the result will be an increase of the
-				// total tracked. The total will later be deducted from the queue usage.
-				total.SubFrom(delta)
+				// The part of the placeholder that is not used by the real allocation will later be deducted
+				// from the queue usage.
+				total.AddTo(resources.SubEliminateNegative(alloc.GetAllocatedResource(), confirmed.GetAllocatedResource()))
 				log.Log(log.SchedPartition).Warn("replacing placeholder: placeholder is larger than real allocation",
 					zap.String("allocationKey", confirmed.GetAllocationKey()),
 					zap.Stringer("requested resource", confirmed.GetAllocatedResource()),
 					zap.String("placeholderKey", alloc.GetAllocationKey()),
 					zap.Stringer("placeholder resource", alloc.GetAllocatedResource()))
+			}
+			// The real allocation can only be larger than the placeholder if the RM changed its size while the
+			// replacement was in flight: like any RM forced change that part is added to the queue usage.
+			if grown := resources.SubEliminateNegative(confirmed.GetAllocatedResource(), alloc.GetAllocatedResource()); !resources.IsZero(grown) {
+				queue.IncAllocatedResource(grown, pc.IsQuotaPreemptionEnabled())
 			}
 			// replacements could be on a different node and different size handle all cases
 			if confirmed.GetNodeID() == alloc.GetNodeID() {
